@@ -98,7 +98,22 @@ func (n *rNode) has(id uintptr) bool {
 // removable: a non-parenthetical non-NOT stack with exactly one non-parenthetical Stack/Condition child
 func (n *rNode) removable() bool {
 	return n.typ == "stack" && !n.paren && !strings.EqualFold(n.kind, "NOT") && len(n.kids) == 1 &&
-		(n.kids[0].typ == "stack" || n.kids[0].typ == "cond") && !n.kids[0].paren
+		(((n.kids[0].typ == "stack" || n.kids[0].typ == "cond") && !n.kids[0].paren) || zeroInstance(n.kids[0]))
+}
+
+// zeroInstance: a never-initialised native Stack / Condition value. Whether that counts as "a Stack or Condition child"
+// of an envelope is not said; the unwrapped form treats it as one, so both readings reduce to the same form.
+func zeroInstance(n *rNode) bool {
+	if n.typ != "leaf" {
+		return false
+	}
+	switch tv := n.val.(type) {
+	case stackage.Stack:
+		return tv.IsZero()
+	case stackage.Condition:
+		return tv.IsZero()
+	}
+	return false
 }
 
 // normalForm: fully unwrapped form (root kept).
@@ -223,6 +238,10 @@ func c20Chain(h int, r *core.Rng) *TNode {
 	return root
 }
 
+func init() {
+	extraLeaf["zero-stack"] = func(*LeafDesc) any { return stackage.Stack{} }
+}
+
 func c20Run(c *core.Ctx, idx int) {
 	_, exh, _ := c20Tier(c.Tier)
 	r := c.Rng
@@ -256,8 +275,58 @@ func c20Run(c *core.Ctx, idx int) {
 			c.Count("trees.spiced." + strings.TrimSpace(strings.ReplaceAll(strings.TrimSpace(did), " ", "+")))
 		}
 	}
+	if idx >= exh && r.Chance(1, 10) {
+		// never-initialised values where Reveal looks first (slot 0), next to whatever else the stack holds
+		var stacks []*TNode
+		tree.Walk(func(n *TNode) {
+			if n.T == "stack" && n.Cap == 0 {
+				stacks = append(stacks, n)
+			}
+		})
+		st := stacks[r.Intn(len(stacks))]
+		var odd *TNode
+		if r.Bool() {
+			odd = &TNode{T: "leaf", Leaf: &LeafDesc{Tag: "zero-stack"}}
+		} else {
+			odd = &TNode{T: "cond", Kw: "holder", Op: &OpDesc{Code: 1}, Expr: &TNode{T: "leaf", Leaf: &LeafDesc{Tag: "zero-stack"}}}
+		}
+		st.Kids = append([]*TNode{odd}, st.Kids...)
+		if r.Bool() {
+			st.Mutex = true
+		}
+		c.Count("trees.zero-stack-in-slot-0")
+	}
 	root := tree.BuildStack()
 	desc := map[string]any{"tree": tree}
+	if idx >= exh && idx%5 == 0 {
+		// elements held through a pointer whose pointee is exchanged after earlier calls have looked at it: Reveal (like
+		// any call) works on what the pointer designates NOW
+		_ = root.String()
+		root.IsNesting()
+		swapped := 0
+		var visit func(s stackage.Stack, d int)
+		visit = func(s stackage.Stack, d int) {
+			for i := 0; i < s.Len() && d < 6; i++ {
+				v, _ := s.Index(i)
+				if cd, ok := AsCond(v); ok && cd.IsInit() {
+					cd.Len()
+					v = cd.Expression()
+				}
+				if p, ok := v.(*AStack); ok && p != nil && r.Chance(1, 2) {
+					*p = AStack(stackage.And().Push(fmt.Sprintf("exchanged-%d", swapped), stackage.Or().Push("exchanged-inner")))
+					swapped++
+					continue
+				}
+				if ns, ok := AsStack(v); ok && ns.IsInit() {
+					visit(ns, d+1)
+				}
+			}
+		}
+		visit(root, 0)
+		if swapped > 0 {
+			c.Count("trees.pointee-exchanged-after-first-sight")
+		}
+	}
 	before := describeLive(root, 0)
 	// lock monitor: a lock.want on a mutex this goroutine already holds is a certain deadlock
 	held := map[uintptr]int{}
